@@ -9,6 +9,9 @@ Re-assembling the un-presented tokens and parsing them with the real parser must
 spec's composition; Substance/Species attributes and phase_idx come from the same cases.
 Reactions/equilibria printed in each format: spec/ReactionRender.tla.
 """
+import re as _re
+from fractions import Fraction as _Fraction
+
 import formula_common as fc
 
 LEVEL = "model_checking"
@@ -150,8 +153,9 @@ def _lex_reaction(s, fmt, names, kinds):
                 out.append({"r": "Plus"})
             name = term
             sp = term.split(" ", 1)
-            if len(sp) == 2 and sp[0].isdigit() and sp[1] in names:
-                out.append({"r": "Coef", "n": int(sp[0])})
+            if len(sp) == 2 and _re.match(r"^\d+(\.\d+)?$", sp[0]) and sp[1] in names:
+                fr = _Fraction(sp[0])
+                out.append({"r": "Coef", "n": fr.numerator, "d": fr.denominator})
                 name = sp[1]
             if name not in names:
                 return None
@@ -167,8 +171,10 @@ def replay_reaction(arg):
     from collections import OrderedDict
     substances = OrderedDict((k, Substance.from_formula(k)) for k in pool)
     cls = Reaction if case["in"]["kind"] == "Reaction" else Equilibrium
-    reac = OrderedDict((pool[s - 1], c) for s, c in case["in"]["reac"])
-    prod = OrderedDict((pool[s - 1], c) for s, c in case["in"]["prod"])
+    def _coef(c):
+        return c[0] if c[1] == 1 else c[0] / c[1]
+    reac = OrderedDict((pool[s - 1], _coef(c)) for s, c in case["in"]["reac"])
+    prod = OrderedDict((pool[s - 1], _coef(c)) for s, c in case["in"]["prod"])
     try:
         r = cls(reac, prod, checks=())
     except TypeError:
